@@ -6,7 +6,7 @@ from props import _family as F
 PROOF_MODULES = ['Jwt.Props.C09']
 PROP_MODULES = ['Jwt.Props.C09']
 PROP_FILES = ['Jwt/Props/C09.lean']
-GENERATED_FACT_THEOREMS = 2
+GENERATED_FACT_THEOREMS = 3
 CHECKER_CMD = "cd lean && lake build Jwt.Props.C09 && lake env lean <generated #print axioms file>"
 LEVEL_TEXT = ('Lean theorems for every bits:Nat: the gates pass exactly per the documented floor table; every primitive call made by verification satisfies it (trace); acceptance implies it; the gate is live at/above the floor; the same for signing (generate). Tied to the code by every oct length 1-160 x HS256/384/512 and every generated RSA/EC/OKP key x every public-key algorithm with oracle-signed tokens.')
 ASSUMPTIONS = F.COMMON_ASSUME + []
